@@ -3,7 +3,7 @@
    Quantification: any state s of the model (any number of listeners and callbacks in the chain, any
    scripts, any queue contents) resp. any op sequence from the initial state; both driver modes;
    signal<T> and signal<void>. *)
-From Cocls Require Import Base BaseProofs SignalDefs SignalProofs.
+From Cocls Require Import Base BaseProofs SignalXDefs SignalXProofs SignalDefs SignalProofs.
 Local Open Scope Z_scope.
 
 (* A collector call from ordinary code, or one whose suspend point is co_awaited (nothing left queued by an
@@ -76,15 +76,42 @@ Proof. exact reawait_rejoins. Qed.
 Print Assumptions c15_reawait_rejoins.
 
 (* Run level.  A listener g whose script is `for(;;) co_await e;`, subscribed while the state is alive, and a driver that
-   never discards the collector's result inside a coroutine (ordinary code, or co_await of the result): for EVERY op
+   never discards the collector's result inside a coroutine nor keeps it in a variable (ordinary code, or co_await of the result): for EVERY op
    sequence that follows (any other listeners/callbacks with any scripts arriving and leaving, handle copies and drops,
    pauses), every accepted collector call delivers its value to g inside that very op: g misses none. *)
 Theorem c15_reawait_misses_none : forall g s r ops,
-  alive s = true -> not_ready (queue s) -> get (tab s) g = None ->
+  alive s = true -> not_ready (queue s) -> held s = [] -> get (tab s) g = None ->
   Forall (disc_op (m_coro s)) ops ->
   none_missed g (fst (step s (OSpawn g 0 false r))) ops.
 Proof. exact reawait_misses_none. Qed.
 Print Assumptions c15_reawait_misses_none.
+
+(* Run level: for every op sequence from the initial state (any ops, also discarded results, kept suspend points,
+   hook-up), no listener id occurs twice among the chain, the ready queue and the kept suspend points — a listener is
+   never subscribed / queued / held twice. *)
+Theorem c15_unique_ids : forall coro vd ops, NoDup (ids (snd (run_from (st0 coro vd) ops))).
+Proof. exact unique_ids. Qed.
+Print Assumptions c15_unique_ids.
+
+(* ... hence exactly once at run level: after ANY op sequence, a collector call from ordinary code or an awaited one
+   (nothing pending) delivers without repetition, exactly to the listeners in the chain, exactly the emitted value. *)
+Theorem c15_exactly_once : forall coro vd ops kind awaited v,
+  let s := snd (run_from (st0 coro vd) ops) in
+  let r := step s (OEmit kind awaited v) in
+  o_st (snd r) = 0 -> (m_coro s = false \/ awaited = true) -> not_ready (queue s) ->
+  NoDup (delivs (o_ev (snd r))) /\
+  (forall i w, In (i, w) (delivs (o_ev (snd r))) <-> In i (cids (chain s)) /\ w = emitted s v).
+Proof. exact exactly_once. Qed.
+Print Assumptions c15_exactly_once.
+
+(* A suspend point kept in a variable and destroyed with nothing in between behaves exactly like a discarded one. *)
+Theorem c15_hold_release : forall s kind v s1 o1 s2 o2 s' o,
+  held s = [] ->
+  step s (OEmitHold kind v) = (s1, o1) -> o_st o1 = 0 -> step s1 ORelease = (s2, o2) ->
+  step s (OEmit kind false v) = (s', o) ->
+  s2 = s' /\ o_st o = 0 /\ o_ev o1 ++ o_ev o2 = o_ev o /\ o_ret o1 = o_ret o.
+Proof. exact hold_release. Qed.
+Print Assumptions c15_hold_release.
 
 (* Subscribers on other threads against the collector's exchanges, every schedule, any number of subscribers and
    exchanges, every CAS attempt its own step: the rounds the collector took plus the chain contain exactly the
@@ -104,6 +131,29 @@ Theorem c15_subscribe_two_attempts : forall c j x, nth_error (c_subs c) j = Some
   exists y, nth_error (c_subs (cs_thread (cs_thread c j) j)) j = Some y /\ spub y = true /\ sid y = sid x.
 Proof. exact cs_two_attempts. Qed.
 Print Assumptions c15_subscribe_two_attempts.
+
+(* The cross-thread model that the controlled-schedule harness (harness/ctl_signal.cpp) follows step by step — subscribers
+   of all kinds (coroutine, blocking .wait() on a future coroutine, connect(callback), detached async) on their own threads,
+   one collector thread calling and dropping, the state's destructor running on whichever thread releases the last
+   reference, yields at asub/apub/rchain/walk/flag wait: for every case, every schedule, any length, every listener id is
+   at every moment in exactly one place — before its CAS, in the chain, held by a thread walking a taken chain, or
+   finished (resumed once / freed once / future resolved once): never lost, never doubled. *)
+Theorem c15_cross_thread_conservation : forall ops fuel sched,
+  let thr := flat_map decode_thr ops in
+  let s := fst (xrun fuel (x_init thr) sched) in
+  (forall x, SignalXProofs.cnt x (all_ids s) = SignalXProofs.cnt x (subs_from thr O)) /\ NoDup (all_ids s).
+Proof. exact x_conservation. Qed.
+Print Assumptions c15_cross_thread_conservation.
+
+(* ... and when every thread has finished, every subscriber is either still subscribed or finished exactly once *)
+Theorem c15_cross_thread_terminal : forall ops fuel sched,
+  let thr := flat_map decode_thr ops in
+  let s := fst (xrun fuel (x_init thr) sched) in
+  Forall (fun p => p = XDone) (x_pcs s) ->
+  forall x, In x (subs_from thr O) ->
+  SignalXProofs.cnt x (map fst (x_chain s) ++ flat_map ev_fin (x_ev s) ++ map fst (x_resolved s)) = 1%nat.
+Proof. exact x_terminal. Qed.
+Print Assumptions c15_cross_thread_terminal.
 
 (* The statement of C15 does NOT hold for a collector called inside a coroutine whose result is discarded and
    that is called again before the coroutine suspends (finding F-C15): listener 1 waits when 1 and is in the
@@ -129,11 +179,21 @@ Example c15_nonvacuous :
   strong s = 1%nat /\ freeds (o_ev (snd (step s ODrop))) = [2%nat].
 Proof. vm_compute. repeat split; try reflexivity. intros it [H|[]]. subst it. reflexivity. Qed.
 
+(* hook_up_emitter (first op of a case): with the collector kept, listener 1 is subscribed to a state whose only handle is
+   the driver's and receives what is emitted; with the collector dropped the state dies inside the first await and the
+   listener is cancelled (at once from ordinary code, at the driver's next suspension in a coroutine) *)
+Example c15_hook_up :
+  flat_map o_ev (fst (run_from (st0 false false) [OHookUp 1 0 false 1 true; OEmit 0 false 5; ODrop]))
+    = [EAwait 1; ERecv 1 5; EAwait 1; ECancel 1 1; EAwait 1; ECancel 1 0; EFin 1] /\
+  flat_map o_ev (fst (run_from (st0 false false) [OHookUp 1 0 false 0 false])) = [EAwait 1; ECancel 1 0; EFin 1] /\
+  map o_ev (fst (run_from (st0 true false) [OHookUp 1 0 false 0 false; OPause])) = [[EAwait 1]; [ECancel 1 0; EFin 1]].
+Proof. vm_compute. repeat split. Qed.
+
 (* non-vacuity of c15_reawait_misses_none: the initial state meets its hypotheses (both driver modes) *)
 Example c15_reawait_nonvacuous : forall coro vd,
-  alive (st0 coro vd) = true /\ not_ready (queue (st0 coro vd)) /\ get (tab (st0 coro vd)) 7 = None /\
+  alive (st0 coro vd) = true /\ not_ready (queue (st0 coro vd)) /\ held (st0 coro vd) = [] /\ get (tab (st0 coro vd)) 7 = None /\
   Forall (disc_op (m_coro (st0 coro vd))) [OSpawn 2 1 true 0; OConnect 3 2; OEmit 0 coro 5; OEmit 2 coro 6; OCopy; ODrop; OEmit 1 coro 8].
 Proof.
-  intros coro vd. split; [reflexivity|]. split; [intros ? []|]. split; [reflexivity|].
+  intros coro vd. split; [reflexivity|]. split; [intros ? []|]. split; [reflexivity|]. split; [reflexivity|].
   destruct coro; (repeat (apply Forall_cons; [cbn; auto|])); apply Forall_nil.
 Qed.
